@@ -31,6 +31,8 @@ specfn("FacDiff", ["SetV[Str]", "Arr[Str,Num]", "SetV[Str]", "Arr[Str,Num]"], "N
 
 # Dim_b(u) for a container u
 predicate("names_ok", ["u: Ref[UnitsContainer]"], "forall[Str](lambda k: implies(k in u._d, len(k) > 0))")
+predicate("dims_ok", ["u: Ref[UnitsContainer]", "r: Ref[GenericPlainRegistry]"],
+          "forall[Str](lambda k: implies(k in u._d and startswith(k, '[') and endswith(k, ']'), k in r._dimensions), 'k in u._d')")
 predicate("DimOf", ["b: Str", "u: Ref[UnitsContainer]"], "DimS(b, keys(u._d), vals(view(u)))")
 
 # ---- registry well-formedness (the part the dimensionality chain needs)
@@ -39,7 +41,8 @@ predicate("RegDim", ["r: Ref[GenericPlainRegistry]"], """
     and forall[Str](lambda k: implies(k in r._dimensions,
             allocated(r._dimensions[k])
             and implies(is_a(r._dimensions[k], 'DerivedDimensionDefinition'),
-                        wf(r._dimensions[k].reference) and names_ok(r._dimensions[k].reference))))
+                        wf(r._dimensions[k].reference) and names_ok(r._dimensions[k].reference)
+                        and dims_ok(r._dimensions[k].reference, r))))
     and forall[Str, Str](lambda k, b: implies(k in r._dimensions and is_a(r._dimensions[k], 'DerivedDimensionDefinition'),
             d1(b, k) == DimOf(b, r._dimensions[k].reference)), "d1(b, k)")
     and forall[Str, Str](lambda k, b: implies(k in r._dimensions and not is_a(r._dimensions[k], 'DerivedDimensionDefinition'),
@@ -47,7 +50,8 @@ predicate("RegDim", ["r: Ref[GenericPlainRegistry]"], """
     and forall[Str](lambda k: implies(k in r._units,
             allocated(r._units[k])
             and implies(not is_none(r._units[k].reference),
-                        wf(some(r._units[k].reference)) and names_ok(some(r._units[k].reference)))))
+                        wf(some(r._units[k].reference)) and names_ok(some(r._units[k].reference))
+                        and dims_ok(some(r._units[k].reference), r))))
     and forall[Str, Str](lambda k, b: implies(k in r._units and is_none(r._units[k].reference),
             d1(b, k) == 0), "d1(b, k)")
     and forall[Str, Str](lambda k, b: implies(k in r._units and not is_none(r._units[k].reference),
@@ -89,8 +93,9 @@ contract(f"{REG}._get_dimensionality_recurse",
          params={"self": "Ref[GenericPlainRegistry]", "ref": "Ref[UnitsContainer]", "exp": "Num",
                  "accumulator": "DDict[Str,Num]"},
          returns="None",
-         requires={"reg": "RegDim(self)", "ref": "wf(ref) and names_ok(ref)", "acc": "allocated(accumulator)"},
-         allow_exc=("ValueError", "UndefinedUnitError", "OffsetUnitCalculusError"),
+         requires={"reg": "RegDim(self)", "ref": "wf(ref) and names_ok(ref) and dims_ok(ref, self)",
+                   "acc": "allocated(accumulator)"},
+         allow_exc=("UndefinedUnitError", "OffsetUnitCalculusError"),
          ensures={
              "accumulates": "forall[Str](lambda b: contents(accumulator)[b] == "
                             "old(contents(accumulator))[b] + exp * DimOf(b, ref))",
@@ -137,12 +142,12 @@ contract(f"{REG}._get_dimensionality",
          requires={"reg": "RegDim(self)", "cache": "CacheDimOK(self)"},
          cases=[
              {"_name": "uc", "input_units": "Ref[UnitsContainer]",
-              "_requires": ["wf(input_units) and names_ok(input_units)"]},
+              "_requires": ["wf(input_units) and names_ok(input_units) and dims_ok(input_units, self)"]},
              {"_name": "none", "input_units": "None",
               "_ensures": {"empty": "view(result) == empty_map[Str, Num]()",
                            "cache": "CacheDimOK(self)", "wf": "wf(result)"}},
          ],
-         allow_exc=("ValueError", "UndefinedUnitError", "OffsetUnitCalculusError"),
+         allow_exc=("UndefinedUnitError", "OffsetUnitCalculusError"),
          ensures={
              "wf": "wf(result)",
              "dim": "forall[Str](lambda b: view(result)[b] == (0 if b == '[]' else DimOf(b, input_units)))",
@@ -277,8 +282,9 @@ contract(f"{REG}._get_conversion_factor",
          returns="Union[Opt[Num],Exc[DimensionalityError]]",
          requires={"reg": "RegDim(self)", "fac": "RegFac(self)", "cdim": "CacheDimOK(self)", "croot": "CacheRootOK(self)",
                    "cfac": "CacheFacOK(self)",
-                   "in": "wf(src) and names_ok(src) and wf(dst) and names_ok(dst) and same_class(src, dst)"},
-         allow_exc=("ValueError", "UndefinedUnitError", "OffsetUnitCalculusError", "KeyError"),
+                   "in": "wf(src) and names_ok(src) and wf(dst) and names_ok(dst) and same_class(src, dst) "
+                         "and dims_ok(src, self) and dims_ok(dst, self)"},
+         allow_exc=("UndefinedUnitError", "OffsetUnitCalculusError", "KeyError"),
          ensures={
              # the central clause of C01: an error object is returned exactly when some base dimension differs
              "error_iff_dim_differs": "is_exc(result) == exists[Str](lambda b: b != '[]' and DimOf(b, src) != DimOf(b, dst))",
@@ -288,6 +294,7 @@ contract(f"{REG}._get_conversion_factor",
              "cdim": "CacheDimOK(self)",
              "croot": "CacheRootOK(self)",
              "cfac": "CacheFacOK(self)",
+             "hashes": "HashesKept()",
          },
          modifies=["contents(self._cache.dimensionality)", "contents(self._cache.root_units)",
                    "contents(self._cache.conversion_factor)", "allof(UnitsContainer._hash)"],
@@ -300,14 +307,16 @@ contract(f"{REG}._convert",
          returns="Num",
          requires={"reg": "RegDim(self)", "fac": "RegFac(self)", "cdim": "CacheDimOK(self)", "croot": "CacheRootOK(self)",
                    "cfac": "CacheFacOK(self)",
-                   "in": "wf(src) and names_ok(src) and wf(dst) and names_ok(dst) and same_class(src, dst)"},
+                   "in": "wf(src) and names_ok(src) and wf(dst) and names_ok(dst) and same_class(src, dst) "
+                         "and dims_ok(src, self) and dims_ok(dst, self)"},
          # C01: DimensionalityError is raised exactly when some base dimension differs -- and then no number is returned
          raises={"DimensionalityError": "exists[Str](lambda b: b != '[]' and DimOf(b, src) != DimOf(b, dst))"},
-         allow_exc=("ValueError", "UndefinedUnitError", "OffsetUnitCalculusError", "KeyError", "TypeError", "ArithmeticError"),
+         allow_exc=("UndefinedUnitError", "OffsetUnitCalculusError", "KeyError", "TypeError", "ArithmeticError"),
          ensures={
              # C02: the result is the value times the ratio of the two factors
              "value_times_ratio": "result == value * FacDiff(keys(src._d), vals(view(src)), keys(dst._d), vals(view(dst)))",
              "cdim": "CacheDimOK(self)", "croot": "CacheRootOK(self)", "cfac": "CacheFacOK(self)",
+             "hashes": "HashesKept()",
          },
          modifies=["contents(self._cache.dimensionality)", "contents(self._cache.root_units)",
                    "contents(self._cache.conversion_factor)", "allof(UnitsContainer._hash)"],
